@@ -297,4 +297,19 @@ Proof.
   exists (o' :: l'). cbn [run_ops]. fold run. rewrite E'. exact H'.
 Qed.
 
+(* the three facts about the invariant, and the three facts about the oracle alphabet, as single statements *)
+Theorem H12_invariant :
+  H12 empty_world /\
+  (forall o w r w', H12 w -> runF fmt o w = Val (r, w') -> H12 w') /\
+  (forall w, H12 w -> PanicFree w /\ RNF w).
+Proof.
+  split; [exact H12_empty|]. split; [exact H12_stepF|]. intros w I. split; [exact (H12_PanicFree w I)|exact (H12_RefNoFloat w I)].
+Qed.
+
+Theorem oracle_facts o :
+  (covered_op o = true -> runF fmt o = run o) /\
+  (forall w x, run o w = Val x -> runF fmt o w = Val x) /\
+  (forall w r w', runF fmt o w = Val (r, w') -> exists o' r', run o' w = Val (r', w')).
+Proof. split; [exact (runF_covered o)|]. split; [exact (runF_extends o)|exact (runF_is_run o)]. Qed.
+
 End Hist.
